@@ -20,3 +20,20 @@ def stretch_class(s, rng, classes=('0123456789', 'abcdef', '$', '^', '.', '-', '
     cl = next(cl for cl in classes if s[i] in cl)
     k = rng.choice([2, 4, 6, 7, 8, 12, max_k, 3 * max_k])
     return s[:i] + ''.join(rng.choice(cl) for _ in range(k)) + s[i:]
+
+
+EXTREME_LENGTHS = [60, 300, 308, 309, 310, 400, 1000, 4299, 4300, 4301, 5000, 12000]
+
+
+def stretch_extreme(s, rng, classes=('0123456789', '$', '^', '.', '-', ' ', '@', '#', '!', '+', ':', 'abcdef'), lengths=EXTREME_LENGTHS):
+    """Run lengths at and beyond the limits of the interpreter itself: floats overflow to inf at 309 digits,
+    CPython refuses int <-> str conversion beyond 4300 digits, zfill / slicing / regex costs grow with the run.
+    Returns (stretched string, class stretched, run length)."""
+    idx = [i for i, c in enumerate(s) if any(c in cl for cl in classes)]
+    if not idx:
+        return s, None, 0
+    i = rng.choice(idx)
+    cl = next(cl for cl in classes if s[i] in cl)
+    k = rng.choice(lengths)
+    run = (rng.choice(cl.replace('0', '') or cl) + ''.join(rng.choice(cl) for _ in range(k - 1))) if rng.random() < 0.5 else s[i] * k
+    return s[:i] + run + s[i:], cl, k
